@@ -119,5 +119,123 @@ DenPairs(E, kvs, i, acc, ctx, log, n) ==
        IF k.st # "ok" THEN k
        ELSE LET v == Den(E, kvs[i][2], k.ctx, k.log, k.n) IN
             IF v.st # "ok" THEN v ELSE DenPairs(E, kvs, i + 1, Append(acc, <<k.val, v.val>>), v.ctx, v.log, v.n)
-Denote(E, prog, ctx0) == Den(E, prog, ctx0, <<>>, 0)
+Denote(E, p, c) == Den(E, p, c, <<>>, 0)
+
+\* ---- machine layer -------------------------------------------------------------------------------
+CONSTANTS BareRefHoldsLock,   \* TRUE reproduces the pinned tree: a context function reached by bare name runs under the context lock
+          BothBranches,       \* negative control: a conditional evaluates both branches and then selects
+          ContinueAfterErr    \* negative control: a failing user handler yields None and evaluation goes on
+VARIABLES env, prog, ctx0,    \* the case being evaluated (constant during a run)
+          work,               \* work stack, head first: <<"eval", node>> | <<"k", tag, ...>> | <<"invoke", r, kind, args>>
+          vals,               \* value stack, head first
+          ctx, ctxLock,       \* the context and its mutex: "free" | "held" | "poisoned"
+          log,                \* observable invocations: <<handler, args, context lock free at entry>>
+          n,                  \* user-handler invocations so far
+          status              \* "run" | "ok" | "err" | "panic" | "dc" | "deadlock"
+mvars == <<env, prog, ctx0, work, vals, ctx, ctxLock, log, n, status>>
+
+Start(E, p, c) == /\ env = E /\ prog = p /\ ctx0 = c /\ work = <<<<"eval", p>>>> /\ vals = <<>> /\ ctx = c /\ ctxLock = "free"
+                  /\ log = <<>> /\ n = 0 /\ status = "run"
+Replace(items) == work' = items \o Tail(work)
+PushVal(v) == vals' = <<v>> \o vals
+Fail(st) == status' = st /\ UNCHANGED <<work, vals>>
+TakeVals(k) == [i \in 1..k |-> vals[k + 1 - i]]          \* the k most recent values, oldest first
+DropVals(k) == SubSeq(vals, k + 1, Len(vals))
+
+\* one evaluator step: dispatch on a node (no handler runs here; registry / context lookups are atomic critical sections)
+EvalNode ==
+  /\ status = "run" /\ work # <<>> /\ Head(work)[1] = "eval"
+  /\ LET t == Head(work)[2] IN
+     CASE t[1] = "lit" -> PushVal(t[2]) /\ work' = Tail(work) /\ UNCHANGED <<status, ctxLock>>
+       [] t[1] = "none" -> PushVal(VNone) /\ work' = Tail(work) /\ UNCHANGED <<status, ctxLock>>
+       [] t[1] = "ref" ->        \* Context::value: one critical section on the context
+            IF ~InDom(ctx, t[2]) THEN PushVal(VNone) /\ work' = Tail(work) /\ UNCHANGED <<status, ctxLock>>
+            ELSE IF ctx[t[2]][1] = "var" THEN PushVal(ctx[t[2]][2]) /\ work' = Tail(work) /\ UNCHANGED <<status, ctxLock>>
+            ELSE /\ UNCHANGED <<vals, status>>
+                 /\ IF BareRefHoldsLock
+                    THEN ctxLock' = "held" /\ Replace(<<<<"invoke", <<"user", ctx[t[2]][2]>>, "call", <<>>>>, <<"k", "unlock">>>>)
+                    ELSE ctxLock' = ctxLock /\ Replace(<<<<"invoke", <<"user", ctx[t[2]][2]>>, "call", <<>>>>>>)
+       [] t[1] = "call" -> Replace([i \in 1..Len(t[3]) |-> <<"eval", t[3][i]>>] \o <<<<"k", "call", t[2], Len(t[3])>>>>) /\ UNCHANGED <<vals, status, ctxLock>>
+       [] t[1] = "un" ->         \* the prefix registry is consulted before the operand is evaluated
+            LET r == ResolvePrefix(env, t[2]) IN
+            IF r[1] = "none" THEN Fail("err") /\ UNCHANGED ctxLock
+            ELSE Replace(<<<<"eval", t[3]>>, <<"k", "apply1", r, "prefix">>>>) /\ UNCHANGED <<vals, status, ctxLock>>
+       [] t[1] = "post" ->
+            LET r == ResolvePostfix(env, t[3]) IN
+            IF r[1] = "none" THEN Fail("err") /\ UNCHANGED ctxLock
+            ELSE Replace(<<<<"eval", t[2]>>, <<"k", "apply1", r, "postfix">>>>) /\ UNCHANGED <<vals, status, ctxLock>>
+       [] t[1] = "bin" ->        \* type lookup first; CALC: handler lookup, then operands; SETTER: operands, then the rest
+            LET ty == InfixType(env, t[2]) IN
+            IF ty = "none" THEN Fail("err") /\ UNCHANGED ctxLock
+            ELSE IF ty = "CALC" THEN Replace(<<<<"eval", t[3]>>, <<"eval", t[4]>>, <<"k", "calc", ResolveInfix(env, t[2])>>>>) /\ UNCHANGED <<vals, status, ctxLock>>
+            ELSE Replace(<<<<"eval", t[3]>>, <<"eval", t[4]>>, <<"k", "set", t[2], t[3]>>>>) /\ UNCHANGED <<vals, status, ctxLock>>
+       [] t[1] = "tern" ->
+            IF BothBranches THEN Replace(<<<<"eval", t[2]>>, <<"eval", t[3]>>, <<"eval", t[4]>>, <<"k", "select">>>>) /\ UNCHANGED <<vals, status, ctxLock>>
+            ELSE Replace(<<<<"eval", t[2]>>, <<"k", "tern", t[3], t[4]>>>>) /\ UNCHANGED <<vals, status, ctxLock>>
+       [] t[1] = "list" -> Replace([i \in 1..Len(t[2]) |-> <<"eval", t[2][i]>>] \o <<<<"k", "list", Len(t[2])>>>>) /\ UNCHANGED <<vals, status, ctxLock>>
+       [] t[1] = "map" -> Replace([i \in 1..2 * Len(t[2]) |-> <<"eval", t[2][(i + 1) \div 2][IF i % 2 = 1 THEN 1 ELSE 2]>>] \o <<<<"k", "map", Len(t[2])>>>>)
+                          /\ UNCHANGED <<vals, status, ctxLock>>
+       [] t[1] = "stmt" ->
+            IF t[2] = <<>> THEN PushVal(VNone) /\ work' = Tail(work) /\ UNCHANGED <<status, ctxLock>>
+            ELSE Replace([i \in 1..2 * Len(t[2]) - 1 |-> IF i % 2 = 1 THEN <<"eval", t[2][(i + 1) \div 2]>> ELSE <<"k", "drop">>]) /\ UNCHANGED <<vals, status, ctxLock>>
+  /\ UNCHANGED <<env, prog, ctx0, ctx, log, n>>
+
+\* a continuation: combine values, look handlers up, store
+Continue ==
+  /\ status = "run" /\ work # <<>> /\ Head(work)[1] = "k"
+  /\ LET w == Head(work) IN
+     CASE w[2] = "call" ->       \* arguments are evaluated; now Context::get_func, then the global registry
+            LET args == TakeVals(w[4]) r == ResolveCall(env, ctx, w[3]) IN
+            IF r[1] = "none" THEN Fail("err") /\ UNCHANGED <<ctx, ctxLock>>
+            ELSE vals' = DropVals(w[4]) /\ Replace(<<<<"invoke", r, "call", args>>>>) /\ UNCHANGED <<status, ctx, ctxLock>>
+       [] w[2] = "apply1" -> vals' = Tail(vals) /\ Replace(<<<<"invoke", w[3], w[4], <<vals[1]>>>>>>) /\ UNCHANGED <<status, ctx, ctxLock>>
+       [] w[2] = "calc" -> vals' = DropVals(2) /\ Replace(<<<<"invoke", w[3], "infix", TakeVals(2)>>>>) /\ UNCHANGED <<status, ctx, ctxLock>>
+       [] w[2] = "set" ->        \* both sides are evaluated; the target must be a plain name; then the handler is looked up
+            IF w[4][1] # "ref" THEN Fail("err") /\ UNCHANGED <<ctx, ctxLock>>
+            ELSE vals' = DropVals(2) /\ Replace(<<<<"invoke", ResolveInfix(env, w[3]), "infix", TakeVals(2)>>, <<"k", "store", w[4][2]>>>>) /\ UNCHANGED <<status, ctx, ctxLock>>
+       [] w[2] = "store" ->      \* Context::set_variable: one critical section; the assignment yields None
+            /\ ctx' = Bind(ctx, w[3], <<"var", vals[1]>>) /\ vals' = <<VNone>> \o Tail(vals) /\ work' = Tail(work) /\ UNCHANGED <<status, ctxLock>>
+       [] w[2] = "tern" ->
+            IF vals[1][1] # "bool" THEN Fail("err") /\ UNCHANGED <<ctx, ctxLock>>
+            ELSE vals' = Tail(vals) /\ Replace(<<<<"eval", IF vals[1][2] THEN w[3] ELSE w[4]>>>>) /\ UNCHANGED <<status, ctx, ctxLock>>
+       [] w[2] = "select" ->
+            IF vals[3][1] # "bool" THEN Fail("err") /\ UNCHANGED <<ctx, ctxLock>>
+            ELSE vals' = <<IF vals[3][2] THEN vals[2] ELSE vals[1]>> \o DropVals(3) /\ work' = Tail(work) /\ UNCHANGED <<status, ctx, ctxLock>>
+       [] w[2] = "list" -> vals' = <<VList(TakeVals(w[3]))>> \o DropVals(w[3]) /\ work' = Tail(work) /\ UNCHANGED <<status, ctx, ctxLock>>
+       [] w[2] = "map" -> LET flat == TakeVals(2 * w[3]) IN
+                          vals' = <<VMap([i \in 1..w[3] |-> <<flat[2 * i - 1], flat[2 * i]>>])>> \o DropVals(2 * w[3]) /\ work' = Tail(work) /\ UNCHANGED <<status, ctx, ctxLock>>
+       [] w[2] = "drop" -> vals' = Tail(vals) /\ work' = Tail(work) /\ UNCHANGED <<status, ctx, ctxLock>>
+       [] w[2] = "unlock" -> ctxLock' = "free" /\ work' = Tail(work) /\ UNCHANGED <<status, ctx, vals>>
+  /\ UNCHANGED <<env, prog, ctx0, log, n>>
+
+\* a handler runs: a step of its own, which must find no engine lock held.  A user handler is logged; one scripted to
+\* lock the context it is evaluated in blocks forever if the evaluator still holds that lock.
+InvokeHandler ==
+  /\ status = "run" /\ work # <<>> /\ Head(work)[1] = "invoke"
+  /\ LET w == Head(work) r == w[2] o == Invoke(env, r, w[3], w[4], n) IN
+     /\ IF o[3] THEN log' = Append(log, <<r[2], w[4], ctxLock = "free">>) /\ n' = n + 1 ELSE UNCHANGED <<log, n>>
+     /\ IF o[3] /\ env.handlers[r[2]].act = "lockctx" /\ ctxLock = "held" THEN Fail("deadlock") /\ UNCHANGED ctxLock
+        ELSE IF o[1] = "ok" THEN PushVal(o[2]) /\ work' = Tail(work) /\ UNCHANGED <<status, ctxLock>>
+        ELSE IF o[1] = "err" /\ ContinueAfterErr /\ o[3] THEN PushVal(VNone) /\ work' = Tail(work) /\ UNCHANGED <<status, ctxLock>>
+        ELSE /\ Fail(o[1])
+             /\ ctxLock' = IF o[1] = "panic" /\ ctxLock = "held" THEN "poisoned" ELSE IF ctxLock = "held" THEN "free" ELSE ctxLock
+  /\ UNCHANGED <<env, prog, ctx0, ctx>>
+
+Finish == /\ status = "run" /\ work = <<>> /\ status' = "ok" /\ UNCHANGED <<env, prog, ctx0, work, vals, ctx, ctxLock, log, n>>
+MStep == EvalNode \/ Continue \/ InvokeHandler \/ Finish
+MDone == status # "run" /\ UNCHANGED mvars
+
+\* ---- properties (C06, C07, C14, C15) ------------------------------------------------------------
+Ref == Denote(env, prog, ctx0)
+LogProj == [i \in 1..Len(log) |-> <<log[i][1], log[i][2]>>]
+CtxEq(a, b) == DOMAIN a = DOMAIN b /\ \A x \in DOMAIN a : a[x][1] = b[x][1] /\ (IF a[x][1] = "var" THEN VEq(a[x][2], b[x][2]) ELSE a[x][2] = b[x][2])
+\* the machine's outcome is the denotation: value, final context (also at the point of a fault), and the handler log
+AgreesWithDen == status \in {"ok", "err", "panic", "dc"} =>
+                   /\ status = Ref.st /\ LogProj = Ref.log /\ CtxEq(ctx, Ref.ctx)
+                   /\ (status = "ok" => (Len(vals) = 1 /\ VEq(vals[1], Ref.val)))
+NoLockAcrossHandler == \A i \in 1..Len(log) : log[i][3]
+NoPoison == status # "run" => ctxLock = "free"
+NoDeadlock == status # "deadlock"
+StopAtFault == (status \in {"err", "panic"} /\ env.fault[1] > 0 /\ env.fault[1] <= n) => env.fault[1] = n
+MTypeOK == status \in {"run", "ok", "err", "panic", "dc", "deadlock"} /\ ctxLock \in {"free", "held", "poisoned"}
 ====
